@@ -131,7 +131,55 @@ async def run_idle(spec: dict[str, Any], hist: History,
                 return
             await s.fetch_all()
         klass = {'before_arm': 0, 'during_write': 0, 'parked': 0}
-        for rnd in range(spec['rounds']):
+        for rnd in range(spec['rounds'] if spec.get('early_done') else 0):
+            # DONE arrives at an arbitrary moment, in particular while the
+            # idler is in the middle of writing a notification, and the next
+            # command follows at once: whatever was pushed during IDLE and
+            # whatever follows must form one consistent stream
+            async def early_idler(s: Session) -> None:
+                for _ in range(s.rng.randint(1, 3)):
+                    tag = await s.idle_begin()
+                    if tag is None or not s.alive:
+                        return
+                    s.idling = True           # type: ignore[attr-defined]
+                    await s.conn.yields(s.rng.choice([0, 3, 10, 30, 80]) +
+                                        s.rng.randint(0, 10))
+                    s.idling = False          # type: ignore[attr-defined]
+                    k = 'early_done_during_write' if s.conn.draining \
+                        else 'early_done_parked'
+                    counters[k] = counters.get(k, 0) + 1
+                    r = await s.idle_end(tag)
+                    if r.closed:
+                        return
+                    if r.cond != b'OK':
+                        hist.report('idle-done-wrong-result',
+                                    'sent DONE, got %r' % (r.cond,))
+                    if s.rng.random() < 0.7:
+                        await s.fetch_all()
+                    else:
+                        await s.noop()
+
+            async def early_writer(s: Session) -> None:
+                await writer_burst(s, spec['burst'], klass, idlers)
+
+            await asyncio.gather(*(early_idler(s) for s in idlers),
+                                 *(early_writer(s) for s in writers))
+            await settle(env, loop)
+            for s in idlers:
+                if s.alive:
+                    await s.noop()
+                    await s.fetch_all()
+            truth = await probe_dump(env, hist, b'INBOX')
+            if truth is None:
+                hist.aborted = 'probe-failed'
+                return
+            for s in idlers:
+                if s.alive:
+                    compare(hist, s, truth, counters,
+                            'round %d, after early DONE and NOOP' % rnd)
+            if hist.violations:
+                break
+        for rnd in range(0 if spec.get('early_done') else spec['rounds']):
             tags: dict[int, bytes | None] = {}
 
             async def idler_task(s: Session) -> None:
@@ -250,7 +298,10 @@ class C16(Check):
     rule = ('case = 1-2 idling sessions + 1-2 writers issuing bursts of 1-5 '
             'APPEND/STORE/EXPUNGE/COPY x one external-event schedule (random '
             'delays, drain() taking 0-40 loop iterations, starvation of an '
-            'idler) x 1-3 rounds; distinct = hash of completion order + '
+            'idler) x 1-3 rounds; every fourth case instead ends IDLE early: '
+            'DONE at an arbitrary moment (also in the middle of a '
+            'notification being written), the next command at once, re-IDLE; '
+            'distinct = hash of completion order + '
             'burst-landing classes; non-trivial = at least one burst change '
             'landed and one idler comparison was made')
     assumptions = [
@@ -260,7 +311,8 @@ class C16(Check):
         'new messages announced only by EXISTS have unknown flags/UID for the '
         'idler; they are compared by position and count']
     floors = {'idle_comparisons': 300, 'burst_parked': 100,
-              'burst_before_arm': 20, 'burst_during_write': 20}
+              'burst_before_arm': 20, 'burst_during_write': 20,
+              'early_done_during_write': 20, 'early_done_parked': 50}
 
     def cases(self, tier: str, seed: int) -> Iterable[dict[str, Any]]:
         n = 1500 if tier == 'quick' else 40000
@@ -272,7 +324,8 @@ class C16(Check):
                    'nidlers': nid, 'nwriters': rng.choice([1, 1, 2]),
                    'nmsgs': rng.randint(2, 6), 'burst': rng.randint(1, 5),
                    'rounds': rng.randint(1, 3),
-                   'sched': idle_schedule(rng, nid)}
+                   'sched': idle_schedule(rng, nid),
+                   'early_done': i % 4 == 3}
 
     def setup_worker(self) -> None:
         install_glass()
